@@ -1,5 +1,6 @@
 import DadiVerif.Model.Proto
 import DadiVerif.Model.Integrate
+import DadiVerif.Model.Kernel
 /- driver ops for the integration core (C01–C04) -/
 namespace DadiVerif.Driver.Integ
 open DadiVerif DadiVerif.Proto
@@ -46,6 +47,25 @@ def paramOf (P : StepParams) : Gen.Py.Param → Rat
   | .m k l => ((P.pops[k]?).map (fun p => p.ms.getD (if l < k then l else l - 1) 0)).getD 0
   | .theta0 => P.theta0
   | .beta => P.beta.getD 1
+
+/-- the translated body of kernel `name` (Generated/Coeffs.lean `C.kernelProgs`), resolved against its signature entry.
+    `endAxis = some p`: the C function is called directly with the end of its outermost loop = extent of axis p (what the harness
+    does through ctypes on non-cubic arrays) instead of what the Cython wrapper passes. -/
+def kernelProgram (name : String) (endAxis : Option Nat) : Option KProg.KProgR := do
+  let p ← Gen.C.kernelProgs.find? (·.name == name)
+  let K ← Gen.C.kernelSigs.find? (fun K => K.name == p.name && K.d == p.d && K.ax == p.ax && K.pre == p.pre)
+  let K' : Gen.C.KernelSig :=
+    match endAxis, K.cParams.getLast? with
+    | some q, some last =>
+        if last.endsWith "end" then { K with pyxCall := K.pyxCall.set (K.cParams.length - 1) (.shape K.rolePhi q) } else K
+    | _, _ => K
+  some (KProg.resolve K' p)
+
+def progBad (R : KProg.KProgR) : Bool :=
+  R.stmts.any (fun st => match st with | .bad _ => true | _ => false)
+
+def parseEndAxis (s : String) : Option (Option Nat) :=
+  if s = "-" then some none else s.toNat?.map some
 
 def handle (toks : List String) : Option String :=
   match toks with
@@ -158,6 +178,41 @@ def handle (toks : List String) : Option String :=
           let E : Prog.PEnv := { tf := tf, T := T, t0 := t0, pf := fun p τ => paramOf (Pf τ) p,
                                  frozen := fun k => fr.getD k false, nomut := fun k => nm.getD k false }
           some ("ok " ++ showND (Prog.run (Prog.semND grids eps.isSome (epsOf eps)) E R 12 (paramOf (Pf t0)) phi))
+  | ["kprog", name, endAxis, use, dt, nu, gamma, h, beta, ms, grids, eps, phi] => do
+      -- the TRANSLATED body of an on-the-fly C kernel, run by the statement semantics of Model/Kernel.lean on the flat array
+      let endAxis ← parseEndAxis endAxis
+      let use ← parseBool use; let dt ← parseRat dt
+      let nu ← parseRat nu; let gamma ← parseRat gamma; let h ← parseRat h
+      let beta ← parseOptRat beta; let ms ← parseList ms
+      let grids ← parseGrids grids
+      let phi ← parseND phi
+      let eps ← if eps = "-" then some (ND.ofFn phi.shape fun _ => 1) else parseND eps
+      match kernelProgram name endAxis with
+      | none => some "err no_program"
+      | some R =>
+        if progBad R || R.pre then some "err unresolved" else
+        if grids.length ≠ phi.shape.length ∨ R.d ≠ grids.length ∨ ms.length + 1 ≠ grids.length then some "err shape" else
+        let env : KProg.KEnv :=
+          { shape := phi.shape, grids := grids, coefs := [], P := { nu := nu, gamma := gamma, h := h, ms := ms, beta := beta },
+            use := use, dt := dt, eps := fun vals j => eps.get (vals.insertIdx R.ax j) }
+        some ("ok " ++ showND ⟨phi.shape, KProg.run R env phi.data⟩)
+  | ["kprogpre", name, endAxis, dt, a, b, c, phi] => do
+      let endAxis ← parseEndAxis endAxis
+      let dt ← parseRat dt
+      let a ← parseND a; let b ← parseND b; let c ← parseND c; let phi ← parseND phi
+      match kernelProgram name endAxis with
+      | none => some "err no_program"
+      | some R =>
+        if progBad R || !R.pre then some "err unresolved" else
+        if a.shape ≠ phi.shape ∨ b.shape ≠ phi.shape ∨ c.shape ≠ phi.shape ∨ R.d ≠ phi.shape.length then some "err shape" else
+        let env : KProg.KEnv :=
+          { shape := phi.shape, grids := [], coefs := [a.data, b.data, c.data], P := { nu := 1, gamma := 0, h := 0, ms := [], beta := none },
+            use := false, dt := dt, eps := fun _ _ => 1 }
+        some ("ok " ++ showND ⟨phi.shape, KProg.run R env phi.data⟩)
+  | ["kprogtable"] =>
+      -- does every resolved kernel body equal the program the model stands for?  (what `C02_kernel_program_table` decides)
+      some ("ok " ++ " ".intercalate (((KProg.resolvedAll.map KProg.stripAllocs).zip KProg.expectedAll).map fun (p : KProg.KProgR × KProg.KProgR) =>
+        p.1.name ++ "=" ++ (if p.1 == p.2 then "1" else "0")))
   | _ => none
 
 end DadiVerif.Driver.Integ
